@@ -12,7 +12,7 @@ THOROUGH = dict(worlds=256, runs=1200, seconds=30)
 RULE = ("seeded blackbox-free circuits x node n (input / internal / output / functionally constant) x endpoint "
         "subsets; distinct = canonical net + node + endpoints; non-trivial = n's function depends on >= 2 startpoints")
 PROBES = ["sp=1", "sp=2", "sp=3", "sp=4", "sp=5", "sp=7", "sp=8", "sensitivity_0", "n_is_input", "n_is_output",
-          "unsat_steps>=2", "sensitize_none", "sensitize_witness", "endpoints_subset", "influence", "sensitivity"]
+          "unsat_steps>=2", "sensitize_none", "sensitize_witness", "endpoints_subset", "influence", "sensitivity", "influence_list_form"]
 ASSUMPTIONS = ["<= 8 startpoints in the cone of n", "exact mode only (approx=False); the supergates=True variant of "
                "influence is not judged"]
 
@@ -66,6 +66,7 @@ def run(case, ctx):
     before = ref.snapshot(c)
     outs = ref.outputs(net)
     nontrivial = False
+    multi_expect = {}
     for n in case["nodes"]:
         if n not in nodes:
             continue
@@ -148,6 +149,22 @@ def run(case, ctx):
             want_avg = sum(ref.popcount(difs[s]) for s in sp) / (1 << k)
             if abs(avg - want_avg) > 1e-9:
                 ctx.violate("C11.avg_sensitivity", f"avg_sensitivity({n}) = {avg}, expected {want_avg}", sig)
+            multi_expect[n] = ({s: ref.popcount(difs[s]) / (1 << k) for s in sp}, want_avg)
+    # ---- the list form of influence / avg_sensitivity (several nodes in one call)
+    if len(multi_expect) >= 2:
+        ns = sorted(multi_expect)
+        ctx.probe("influence_list_form")
+        sigm = {"list_form": True}
+        allinf = ctx.call("C11.influence_raises", sigm, cg.props.influence, c, list(ns), approx=False)
+        allavg = ctx.call("C11.avg_sensitivity_raises", sigm, cg.props.avg_sensitivity, c, list(ns), approx=False)
+        if not isinstance(allinf, dict) or set(allinf) != set(ns) or not isinstance(allavg, dict) or set(allavg) != set(ns):
+            ctx.violate("C11.influence_keys", f"influence/avg_sensitivity({ns}) returned {allinf!r} / {allavg!r}", sigm)
+        for n2 in ns:
+            wi, wa = multi_expect[n2]
+            if set(allinf[n2]) != set(wi) or any(abs(allinf[n2][s] - wi[s]) > 1e-12 for s in wi):
+                ctx.violate("C11.influence", f"influence({ns})[{n2}] = {allinf[n2]}, expected {wi}", sigm)
+            if abs(allavg[n2] - wa) > 1e-9:
+                ctx.violate("C11.avg_sensitivity", f"avg_sensitivity({ns})[{n2}] = {allavg[n2]}, expected {wa}", sigm)
     # ---- sensitization_transform / sensitize on the first picked node
     n = case["nodes"][0]
     if n in nodes and outs:
@@ -216,7 +233,7 @@ def run(case, ctx):
 
 
 def sig_key(sig):
-    return (sig.get("exc"), sig.get("n_is_input"), sig.get("endpoints"))
+    return (sig.get("exc"), sig.get("n_is_input"), sig.get("endpoints"), sig.get("list_form"))
 
 
 def shrink(case):
